@@ -98,11 +98,16 @@ pub trait ExtractAttribute {
 
         quote!(
             #declarations
-            use ::darling::ToTokens;
 
             for __attr in #attrs_accessor {
-                // Filter attributes based on name
-                match ::darling::export::ToString::to_string(&__attr.path().clone().into_token_stream()).as_str() {
+                // Filter attributes based on name. The name is built from the path's segments
+                // rather than from its printed tokens, whose spacing is not stable.
+                let mut __attr_name = ::darling::util::path_to_string(__attr.path());
+                if __attr.path().leading_colon.is_some() {
+                    __attr_name.insert_str(0, "::");
+                }
+
+                match __attr_name.as_str() {
                     #parse_handled
                     #forward_unhandled
                 }
